@@ -23,7 +23,21 @@ def load_osm(path: Path):
         g = nx.node_link_graph(data, edges="links")
     except TypeError:
         g = nx.node_link_graph(data)
-    return OSMRoadNetwork(g)
+    ref = copy_graph(g)
+    return OSMRoadNetwork(g), ref
+
+
+def copy_graph(g):
+    """the INPUT graph as data, taken before the network object is built from it: the reference the routes are judged
+    against must not depend on what the implementation stores or rewrites"""
+    import networkx as nx
+
+    c = nx.MultiDiGraph()
+    for n, d in g.nodes(data=True):
+        c.add_node(n, **dict(d))
+    for u, v, k, d in g.edges(keys=True, data=True):
+        c.add_edge(u, v, key=k, **dict(d))
+    return c
 
 
 def gen_graph(rng: random.Random, n_nodes: int):
@@ -63,6 +77,53 @@ def gen_graph(rng: random.Random, n_nodes: int):
     return g
 
 
+def add_parallel_links(g, rng: random.Random, n: int) -> None:
+    """a second, slower link between junctions that already have a direct one (a loop road next to the street): hive
+    names links by their end junctions, the direct (first) link is the one its link table describes"""
+    pairs = sorted({(u, v) for u, v in g.edges()})
+    for (u, v) in rng.sample(pairs, min(n, len(pairs))):
+        d = g.get_edge_data(u, v)[0]
+        g.add_edge(u, v, length=float(d["length"]) * rng.uniform(1.5, 3.0), speed_kmph=float(d["speed_kmph"]) * rng.choice([0.3, 0.5, 1.0]))
+
+
+def gen_dogleg_graph(rng: random.Random, scale_km: float):
+    """near ties: a straight street A->B at 99 km/h against the dog-leg A->C->B over two links at 100 km/h (the top
+    speed) that is faster by a few ten-thousandths only; X->A and B->Y carry the end points, slow links close the ring.
+    All link lengths exceed the straight-line distance of their junctions (no estimate from geometry and top speed can
+    exceed a true travel time)."""
+    import networkx as nx
+    import h3
+
+    g = nx.MultiDiGraph()
+    gkm = scale_km
+    xy = {"X": (-2000.0, 0.0), "A": (0.0, 0.0), "C": (1500.0 * gkm, 60.0 * gkm), "B": (2500.0 * gkm, 0.0), "Y": (2500.0 * gkm + 2000.0, 0.0)}
+    ids = {"X": 1, "A": 2, "C": 3, "B": 4, "Y": 5}
+    cell = {}
+    for nme, (x, y) in xy.items():
+        lat, lon = world.at(x, y)
+        g.add_node(ids[nme], x=lon, y=lat)
+        cell[nme] = h3.geo_to_h3(lat, lon, 15)
+
+    def crow_m(a, b):
+        return h3.point_dist(h3.h3_to_geo(cell[a]), h3.h3_to_geo(cell[b]), unit="m")
+
+    vmax = 100.0
+    l_cb = crow_m("C", "B") + 3.0
+    l_ac = crow_m("A", "C") * 1.02 + 3.0
+    t_dog = (l_ac + l_cb) / vmax                      # in (metres per km/h): only ratios matter below
+    # the direct street is slower than the dog-leg by `eps` of the last leg's time
+    eps = rng.choice([0.0003, 0.0005, 0.0007])
+    l_ab = 99.0 * (t_dog + eps * crow_m("C", "B") / vmax)
+    if l_ab < crow_m("A", "B") + 1.0:
+        l_ab = crow_m("A", "B") + 1.0                 # geometry wins: then there is simply no near tie in this graph
+    for (a, b, length, v) in (("X", "A", crow_m("X", "A") * 1.1, 50.0), ("A", "C", l_ac, vmax), ("C", "B", l_cb, vmax),
+                              ("A", "B", l_ab, 99.0), ("B", "Y", crow_m("B", "Y") * 1.1, 50.0),
+                              ("Y", "X", crow_m("Y", "X") * 1.3, 30.0), ("B", "A", crow_m("A", "B") * 1.2, 40.0),
+                              ("C", "A", crow_m("A", "C") * 1.2, 40.0)):
+        g.add_edge(ids[a], ids[b], length=length, speed_kmph=v)
+    return g
+
+
 def osm_from_graph(g):
     import logging
 
@@ -75,14 +136,14 @@ def osm_from_graph(g):
 class NetView:
     """index of an OSMRoadNetwork for the harness"""
 
-    def __init__(self, rn, gid: str, from_inputs: bool = False):
-        self.rn, self.gid = rn, gid
+    def __init__(self, rn, gid: str, ref, from_inputs: bool = False):
+        self.rn, self.gid, self.ref = rn, gid, ref
         self.from_inputs = from_inputs
-        self.nodes = sorted(rn.graph.nodes())
+        self.nodes = sorted(ref.nodes())
         self.ix = {n: i + 1 for i, n in enumerate(self.nodes)}
-        self.links = sorted(rn.link_helper.links.keys())
+        self.links = sorted({f"{u}-{v}" for u, v in ref.edges()})
         self.edges = []
-        for u, v, d in rn.graph.edges(data=True):
+        for u, v, d in ref.edges(data=True):
             self.edges.append([self.ix[u], self.ix[v], self.weight_ms(d)])
 
     def weight_ms(self, d: Dict[str, Any]) -> int:
@@ -96,7 +157,7 @@ class NetView:
     def graph_line(self, fw: bool) -> Dict[str, Any]:
         # node positions are quantised to res-15 cells (about a metre): "fastest" is claimed up to the time it takes to
         # drive two metres at the graph's top speed
-        vmax = max(lk.speed_kmph for lk in self.rn.link_helper.links.values())
+        vmax = max(float(d["speed_kmph"]) for _, _, d in self.ref.edges(data=True))
         slack = int(2.0 / (vmax / 3.6) * 1000) + 1
         return {"k": "graph", "id": self.gid, "n": len(self.nodes), "edges": self.edges, "fw": fw, "slack": slack}
 
@@ -114,7 +175,7 @@ class NetView:
         import networkx as nx
 
         src = self.nodes[src_ix - 1]
-        dist = nx.single_source_dijkstra_path_length(self.rn.graph, src, weight=lambda u, v, d: min(self.weight_ms(x) for x in d.values()))
+        dist = nx.single_source_dijkstra_path_length(self.ref, src, weight=lambda u, v, d: min(self.weight_ms(x) for x in d.values()))
         return [int(dist.get(n, 10 ** 8)) for n in self.nodes]
 
 
@@ -193,7 +254,7 @@ def pairs_for(view: NetView, rng: random.Random, n: int) -> List[Tuple[Any, Any,
             b = rng.choice(nxt) if nxt else rng.choice(links)
         elif cls == "opposite_directions":
             u, v = a.split("-")
-            b = f"{v}-{u}" if f"{v}-{u}" in view.rn.link_helper.links else rng.choice(links)
+            b = f"{v}-{u}" if f"{v}-{u}" in set(links) else rng.choice(links)
         else:
             b = rng.choice(links)
         wa = {"ends": rng.choice(["start", "end"]), "interiors": "mid"}.get(cls, rng.choice(["start", "mid", "end"]))
@@ -238,14 +299,20 @@ def write_records(path: Path, job: Dict[str, Any]) -> Dict[str, Any]:
                 n_routes += 1
             return {"routes": n_routes, "net": kind}
         if kind == "file":
-            rn = load_osm(Path(job["path"]))
-            view = NetView(rn, job["id"])
+            rn, ref = load_osm(Path(job["path"]))
+            view = NetView(rn, job["id"], ref)
             fw = False
         else:
-            g = gen_graph(rng, job["nodes"])
+            if kind == "dogleg":
+                g = gen_dogleg_graph(rng, job.get("scale_km", 8.0))
+            else:
+                g = gen_graph(rng, job["nodes"])
+                if job.get("parallel", True):
+                    add_parallel_links(g, rng, max(1, job["nodes"] // 4))
+            ref = copy_graph(g)
             rn = osm_from_graph(g)
-            view = NetView(rn, job["id"], from_inputs=True)
-            fw = job["nodes"] <= 14
+            view = NetView(rn, job["id"], ref, from_inputs=True)
+            fw = len(view.nodes) <= 14
         w(view.graph_line(fw))
         pairs = all_link_pairs(view, rng) if job.get("all_pairs") else pairs_for(view, rng, job["n"])
         for k, (o, d, cls) in enumerate(pairs):
